@@ -35,7 +35,8 @@ type op struct {
 	V string `json:"v,omitempty"` // "" = delete
 }
 type step struct {
-	Kind string `json:"kind"` // block | prune
+	Kind string `json:"kind"` // block | prune | rollback
+	Back int    `json:"back,omitempty"` // rollback: blocks of the chain abandoned (a fork wins)
 	Ops  []op   `json:"ops,omitempty"`
 	Skip int    `json:"skip,omitempty"` // rounds skipped before this block (empty rounds)
 }
@@ -93,6 +94,8 @@ func (t *ids) id(h string) int {
 }
 
 type blockRec struct {
+	blk     *block.Block
+	fork    int
 	round   int
 	root    []byte
 	want    map[int]string
@@ -161,10 +164,21 @@ func allNodes(ndb util.NodeDB, root []byte) (hashes []string, origins map[string
 	return
 }
 
+type stepOut struct {
+	kind     string
+	blk      *blockRec
+	readable []bool
+	r0       int
+}
+
 type result struct {
 	org      map[string]int64 // origin of every node hash seen
-	blocks   []*blockRec
+	outs     []stepOut
+	maxLfb   int
+	blocks   []*blockRec // the current finalized chain
 	readable [][]bool // after every prune step: per finalized block, full iteration succeeded
+	chains   [][]*blockRec // the finalized chain at each prune
+	all      []*blockRec   // every block ever finalized (hypothesis checks)
 	pruneAt  []int    // index into blocks (number of blocks finalized) at each prune
 	lfbAt    []int    // lfb round at each prune
 	fail     string
@@ -205,18 +219,22 @@ func run(h hist, scratch string, kinds map[string]int) (res result) {
 	prev := gb
 	want := map[int]string{}
 	rnd := h.Start
+	fork := 0
+	noSkip := false
 	for _, st := range h.Steps {
 		switch st.Kind {
 		case "block":
-			rnd += st.Skip
+			if !noSkip { // after a roll back every round is finalized again (no round is skipped)
+				rnd += st.Skip
+			}
 			b := block.NewBlock("", int64(rnd))
-			b.Hash = encryption.Hash(fmt.Sprintf("block-%d", rnd))
+			b.Hash = encryption.Hash(fmt.Sprintf("block-%d-fork-%d", rnd, fork))
 			b.MinerID = minerID
 			b.RoundRank = 0
 			b.PrevBlock = prev // (SetPreviousBlock would renumber the round: rounds can be skipped here)
 			b.PrevHash = prev.Hash
 			st8 := block.CreateStateWithPreviousBlock(prev, pndb, b.Round)
-			rec := &blockRec{round: rnd}
+			rec := &blockRec{round: rnd, blk: b, fork: fork}
 			mpt := st8.(*util.MerklePatriciaTrie)
 			mpt.ChangeCollector = &recorder{ChangeCollectorI: mpt.ChangeCollector, log: &rec.micros, org: res.org}
 			b.ClientState = st8
@@ -256,9 +274,11 @@ func run(h hist, scratch string, kinds map[string]int) (res result) {
 			}
 			sort.Strings(rec.adds)
 			sort.Strings(rec.dels)
-			rd := round.NewRound(b.Round)
-			rd.SetRandomSeed(int64(rnd)*7919+1, 1)
-			c.AddRound(rd)
+			if c.GetRound(b.Round) == nil {
+				rd := round.NewRound(b.Round)
+				rd.SetRandomSeed(int64(rnd)*7919+1, 1)
+				c.AddRound(rd)
+			}
 			c.AddBlock(b)
 			if err := c.VerifFinalizeBlock(ctx, b, bsh{}); err != nil {
 				res.fail = "finalize-block-fails"
@@ -280,9 +300,20 @@ func run(h hist, scratch string, kinds map[string]int) (res result) {
 				return
 			}
 			res.blocks = append(res.blocks, rec)
+			res.all = append(res.all, rec)
+			res.outs = append(res.outs, stepOut{kind: "block", blk: rec})
+			if rnd > res.maxLfb {
+				res.maxLfb = rnd
+			}
 			prev = b
 			rnd++
 			kinds["block-finalized"]++
+			if fork > 0 {
+				kinds["block-finalized-again-after-rollback"]++
+				if len(rec.dels) == 0 {
+					kinds["refinalized-round-with-empty-deletes"]++
+				}
+			}
 		case "prune":
 			lfb := c.GetLatestFinalizedBlock()
 			c.VerifPruneClientState(ctx)
@@ -293,8 +324,36 @@ func run(h hist, scratch string, kinds map[string]int) (res result) {
 				rd = append(rd, ok)
 			}
 			res.readable = append(res.readable, rd)
+			res.chains = append(res.chains, append([]*blockRec{}, res.blocks...))
 			res.pruneAt = append(res.pruneAt, len(res.blocks))
-			res.lfbAt = append(res.lfbAt, int(lfb.Round))
+			res.lfbAt = append(res.lfbAt, res.maxLfb)
+			res.outs = append(res.outs, stepOut{kind: "prune", readable: rd})
+			_ = lfb
+		case "rollback":
+			// a fork wins: finalizeRound sets the LFB back to the common ancestor; the rounds
+			// after it are finalized again with other blocks.  Never below what may be pruned.
+			back := st.Back
+			for back > 0 && (len(res.blocks)-1-back < 0 || res.blocks[len(res.blocks)-1-back].round < res.maxLfb-h.Count+1) {
+				back--
+			}
+			if back == 0 {
+				kinds["rollback-not-applicable"]++
+				continue
+			}
+			t := res.blocks[len(res.blocks)-1-back]
+			res.blocks = res.blocks[:len(res.blocks)-back]
+			c.SetLatestOwnFinalizedBlockRound(t.blk.Round)
+			c.SetLatestFinalizedBlock(t.blk)
+			prev = t.blk
+			want = map[int]string{}
+			for k, v := range t.want {
+				want[k] = v
+			}
+			rnd = t.round + 1
+			fork++
+			noSkip = true
+			res.outs = append(res.outs, stepOut{kind: "rollback", r0: t.round})
+			kinds["rollback"]++
 		}
 	}
 	return
@@ -305,7 +364,7 @@ func oracle(h hist, res result, kinds map[string]int) string {
 	if res.fail != "" {
 		return res.fail
 	}
-	for _, br := range res.blocks {
+	for _, br := range res.all {
 		// hypothesis of the theorem, checked on the real trie: what a block records dead is not part of its own state,
 		// and what it adds carries the block's round as origin
 		in := map[string]bool{}
@@ -329,7 +388,7 @@ func oracle(h hist, res result, kinds map[string]int) string {
 	for pi, rd := range res.readable {
 		lfb := res.lfbAt[pi]
 		for bi, ok := range rd {
-			br := res.blocks[bi]
+			br := res.chains[pi][bi]
 			if br.round >= lfb-h.Count {
 				if !ok {
 					return "retained-block-state-unreadable"
@@ -356,16 +415,10 @@ func coqCase(h hist, res result) string {
 		return vh.List(out)
 	}
 	var steps []string
-	bi := 0
-	pi := 0
-	for _, st := range h.Steps {
-		switch st.Kind {
+	for _, so := range res.outs {
+		switch so.kind {
 		case "block":
-			if bi >= len(res.blocks) {
-				continue
-			}
-			br := res.blocks[bi]
-			bi++
+			br := so.blk
 			var ms []string
 			for _, m := range br.micros {
 				if m.add {
@@ -380,15 +433,13 @@ func coqCase(h hist, res result) string {
 			}
 			steps = append(steps, fmt.Sprintf("(PsBlock %s %s %s %s %s)", vh.Z(int64(br.round)), vh.List(ms), hl(br.adds), hl(br.dels), hl(br.nodeSet)))
 		case "prune":
-			if pi >= len(res.readable) {
-				continue
-			}
 			var rd []string
-			for _, ok := range res.readable[pi] {
+			for _, ok := range so.readable {
 				rd = append(rd, vh.Bool(ok))
 			}
-			pi++
 			steps = append(steps, fmt.Sprintf("(PsPrune %s)", vh.List(rd)))
+		case "rollback":
+			steps = append(steps, fmt.Sprintf("(PsRollback %s)", vh.Z(int64(so.r0))))
 		}
 	}
 	return fmt.Sprintf("{| prc_start := %s; prc_count := %s; prc_steps := %s |}", vh.Z(int64(h.Start)), vh.Z(int64(h.Count)), vh.List(steps))
@@ -406,6 +457,15 @@ func genHist(r *vh.Rand, big bool) hist {
 	for i := 0; i < n; i++ {
 		if i > 0 && r.Chance(1, 6) {
 			h.Steps = append(h.Steps, step{Kind: "prune"})
+		}
+		if i > 3 && r.Chance(1, 10) {
+			// a fork wins: the last 1-3 blocks are abandoned and their rounds finalized again,
+			// 1 in 2 times starting with a block that changes nothing
+			h.Steps = append(h.Steps, step{Kind: "rollback", Back: r.Range(1, 3)})
+			if r.Bool() {
+				h.Steps = append(h.Steps, step{Kind: "block"})
+				i++
+			}
 		}
 		st := step{Kind: "block"}
 		if r.Chance(1, 15) {
@@ -440,7 +500,7 @@ func main() {
 	rep.CaseInputs = []interface{}{}
 	rep.Rule = "histories of 12-50 (oracle-only: 60-130) finalized blocks starting at rounds 60/88/95/99/100/101/180/195 (pruning aligns to multiples of 100), " +
 		"0-6 inserts/updates/deletes per block over 4-32 keys and 3 values (equal values re-inserted, delete-then-recreate of the identical value inside one block, " +
-		"deletes of absent keys), empty rounds, prune_below_count 2-9, pruneClientState called after 1 in 6 blocks and at the end, on a RocksDB PNodeDB; " +
+		"deletes of absent keys), empty rounds, roll backs of the LFB by 1-3 blocks after which the rounds are finalized again with other blocks (1 in 2 starting with a block that changes nothing), prune_below_count 2-9, pruneClientState called after 1 in 6 blocks and at the end, on a RocksDB PNodeDB; " +
 		"after every prune the full state of every finalized block is iterated. non-trivial = at least one prune deleted nodes of an older block while a retained block was read; distinct by input"
 	cf := &vh.CasesFile{Imports: []string{"Base.Corr", "Model.Prune", "Corr.Prune"}, CaseType: "prc_case", CheckFn: "prc_check", Shard: 12}
 	logging.Logger = zap.NewNop()
